@@ -267,6 +267,8 @@ def r5(ctx):
     ctx.sub(c01.r5)
     ctx.sub(c01.r6, only=("start:cost",))   # "... and the reported cost equals" the cost of the returned path
     ctx.sub(c01.r7)                          # which follows the stored back-pointers
+    from . import c19
+    ctx.sub(c19.r3)                          # the compiled kernel accepts a per-pair vector (no explicit scalar-only signature)
 
 
 @rule("C07", "R6", "RANGE", "each series is stacked exactly (no window mixes two series; no series loses or gains rows)")
@@ -280,3 +282,4 @@ def r7(ctx):
     from . import c04
     ctx.sub(c04.r4)
     ctx.sub(c04.r1)
+    ctx.sub(c04.r3)                          # the joint labels are cut at the series boundaries, one fresh list per call
